@@ -26,7 +26,7 @@ SPEC = {
     "harness": "c01c",
     "theorems": ["C01_stream_any_chunking", "C01_stream_op_any_chunking", "C01_stream_write_layout",
                  "C01_stream_op_write_layout", "C01_stream_in_place_any_chunking", "C01_stream_readFull_any_chunking",
-                 "C01_stream_seek_spec", "C01_stream_seek_end_appends", "C01_stream_seek_in_place_any_chunking",
+                 "C01_stream_peek_written", "C01_stream_peek_then_read_any_chunking", "C01_stream_sub_any_chunking", "C01_stream_seek_spec", "C01_stream_seek_end_appends", "C01_stream_seek_in_place_any_chunking",
                  "C01_facts_body_writeFixedSize", "C01_facts_body_WriteCollection", "C01_facts_body_WriteBytesWithSize", "C01_facts_body_ByteBuffer_Write", "C01_facts_body_ByteBuffer_Seek", "C01_facts_body_Offset", "C01_facts_body_Skip", "C01_facts_body_GoTo", "C01_facts_fitsLP"],
     "trusted_base": ["hand-written model Hive/Model/Stream.lean of serializer/stream/{read,write,byte_buffer}.go, tied by differential execution (harness/c01c, harness/c02/sx)",
                      "io.ReadFull / binary.Read / bytes.Buffer semantics as written down in the model (readFullAux, BB.write)",
@@ -42,5 +42,6 @@ SPEC = {
         "note": "Trusted: Lean kernel; model Hive/Model/Stream.lean (tie = differential execution); Go's io.ReadFull/binary.Read semantics as modelled.",
         "technique": "Lean 4 proof by induction over writer programs and chunk lists + differential correspondence",
     },
-    "assumptions": ["collection items written with WriteObject have the fixed length the reader is told (WOp.wf)"],
+    "assumptions": ["PeekSize/ReadObjectFromReader theorems: Hive/Proofs/StreamPeekC01.lean (C01_stream_peek_written, C01_stream_peek_then_read_any_chunking, C01_stream_sub_any_chunking); tie: sr requests with peek/ofr in harness/c01c/peek.go + Go oracle peek-oracle",
+                    "collection items written with WriteObject have the fixed length the reader is told (WOp.wf)"],
 }
